@@ -229,6 +229,9 @@ func (rn *run) msg(id int) proto.Message {
 	}
 	if rn.dict[id-1] == nil {
 		kind := rn.scn.Msgs[strconv.Itoa(id)]
+		if kind == "" && id == 1 && rn.scn.Cl.Form == "rest" && rn.scn.Cl.Method == "Query" {
+			kind = "empty" // a REST GET without path variables and query parameters carries the empty message
+		}
 		if kind == "" {
 			kind = msgKinds[rn.rnd.Intn(len(msgKinds))]
 			if rn.faulty && kind == "empty" {
@@ -460,6 +463,10 @@ func (rn *run) buildRequest() (*http.Request, *scriptBody, []byte) {
 	}
 	if cl.Form == "rest" {
 		method, path, query = rn.restRequestLine(query)
+		if method == http.MethodGet {
+			body = nil
+			hdr.Del("Content-Type")
+		}
 	}
 	if cl.HTTP != "" {
 		method = cl.HTTP
@@ -651,6 +658,7 @@ func (rn *run) restRequestLine(query url.Values) (string, string, url.Values) {
 	case "Post":
 		return http.MethodPost, "/v1/things", query
 	case "Query":
+		// GET rule without path variables: the (empty) message has no query parameters
 		return http.MethodGet, "/v1/query", query
 	}
 	return http.MethodPost, "/v1/nosuch/" + rn.scn.Cl.Method, query
@@ -807,6 +815,7 @@ func (rn *run) serveBackend(kind string, w http.ResponseWriter, req *http.Reques
 		d.PathOK = "other"
 	}
 	d.Query = "none"
+	d.URLLen = len(req.URL.Path) + 1 + len(req.URL.RawQuery)
 	if req.URL.RawQuery != "" {
 		d.Query = "other"
 		if req.URL.Query().Get("connect") == "v1" {
@@ -1716,6 +1725,14 @@ func runScenario(scn *scenario, seed int64) observation {
 	}
 	scn.Seed = seed
 	obs := runOnce(scn, seed)
+	if scn.Cl.GetDelta != "" && len(obs.Disp) == 1 && obs.Disp[0].HTTP == http.MethodGet {
+		// C19: re-run with the URL-length limit placed exactly at / around the URL the transcoder built
+		limited := *scn
+		limited.Cfg.MaxGet = obs.Disp[0].URLLen + map[string]int{"m1": -1, "0": 0, "p1": 1}[scn.Cl.GetDelta]
+		obs = runOnce(&limited, seed)
+		obs.Scn = scn
+		obs.MaxGet = limited.Cfg.MaxGet
+	}
 	if len(scn.Cl.Chunks) > 0 || len(scn.Hd.Reads) > 0 || len(scn.Hd.Writes) > 0 || scn.Hd.Flush {
 		plain := *scn
 		plain.Cl.Chunks, plain.Hd.Reads, plain.Hd.Writes, plain.Hd.Flush = nil, nil, nil, false
